@@ -7,6 +7,7 @@ import (
 	"fmt"
 	"net/http"
 	"runtime"
+	"strings"
 	"time"
 
 	"github.com/lxzan/gws"
@@ -37,7 +38,7 @@ func runC04(c *Ctx) error {
 		if why != "" {
 			c.oracleFail(why+" ["+tag+"]", sig, replay)
 		}
-		if obs.PeakAlloc > allocBudget(limit, len(stream)) {
+		if obs.PeakAlloc > allocBudget(limit, len(stream), obs.Chunks) {
 			c.oracleFail(fmt.Sprintf("allocated %d bytes while reading with limit %d [%s]", obs.PeakAlloc, limit, tag), "over-allocation", replay)
 		}
 		if !skip {
@@ -130,6 +131,15 @@ func runC04(c *Ctx) error {
 			stream = encodeFrame(frameSpec{Fin: true, Rsv1: true, Opcode: 1 + i%2, Masked: spec.Server, Key: [4]byte{1, 2, 3, 4}, Payload: z, DeclLen: -1})
 		}
 		if err := run(spec, stream, fmt.Sprintf("garbage i=%d", i)); err != nil {
+			return err
+		}
+	}
+	// a deflate bomb: 32 MiB of zeros in about 32 KiB, within the wire limit, far beyond it inflated
+	for _, server := range []bool{true, false} {
+		spec := connSpec{Server: server, PMD: true, RLimit: 70000}
+		z := rfc7692Deflate(make([]byte, 32<<20), nil, 9)
+		stream := encodeFrame(frameSpec{Fin: true, Rsv1: true, Opcode: 2, Masked: server, Key: [4]byte{4, 3, 2, 1}, Payload: z, DeclLen: -1})
+		if err := run(spec, stream, fmt.Sprintf("bomb 32MiB server=%v wire=%d", server, len(z))); err != nil {
 			return err
 		}
 	}
@@ -243,14 +253,26 @@ func runC04Handshake(c *Ctx) error {
 	vals := []string{"-1", "0", "1", "7", "8", "15", "16", "17", "24", "30", "31", "32", "33", "62", "63", "64", "65", "255", "4294967296", "99999999999999999999", "abc", "", "15x", " 12"}
 	params := []string{"server_max_window_bits", "client_max_window_bits"}
 	hostileUp := gws.NewUpgrader(&recHandler{}, &gws.ServerOption{PermessageDeflate: gws.PermessageDeflate{Enabled: true, ServerContextTakeover: true, ClientContextTakeover: true, PoolSize: 1}})
+	// shapes other than name=value: bare tokens, empty values, repeated '=', stray separators, repeats, unknown names
+	shapes := []string{"permessage-deflate; %s", "permessage-deflate; %s=", "permessage-deflate; %s=12=13", "permessage-deflate;%s;", "permessage-deflate ; %s ; ",
+		"permessage-deflate; %s; %s=10", "permessage-deflate; %s=10; %s", "permessage-deflate; =; %s", "permessage-deflate; %s=\"10\"", "%s", "%s=10", ";", "permessage-deflate;;;",
+		"permessage-deflate; x-unknown; %s=9", "permessage-deflate, permessage-deflate; %s=9", "PERMESSAGE-DEFLATE; %s=9"}
+	names := append([]string{"client_no_context_takeover", "server_no_context_takeover"}, params...)
+	var exts []string
+	for _, sh := range shapes {
+		for _, nm := range names {
+			exts = append(exts, strings.ReplaceAll(sh, "%s", nm))
+		}
+	}
+	for _, pn := range params {
+		for _, v := range vals {
+			exts = append(exts, "permessage-deflate; "+pn+"="+v, "permessage-deflate; server_max_window_bits="+v+"; client_max_window_bits="+v)
+		}
+	}
 	for _, server := range []bool{true, false} {
-		for _, pn := range params {
-			for _, v := range vals {
-				for _, both := range []bool{false, true} {
-					ext := "permessage-deflate; " + pn + "=" + v
-					if both {
-						ext = "permessage-deflate; server_max_window_bits=" + v + "; client_max_window_bits=" + v
-					}
+		{
+			{
+				for _, ext := range exts {
 					pd := gws.PermessageDeflate{Enabled: true, ServerContextTakeover: true, ClientContextTakeover: true}
 					var conn *gws.Conn
 					var err error
